@@ -248,7 +248,7 @@ def _multi_case(draw, tier):
     files = []
     for _ in range(n):
         files.append({
-            "kind": draw(st.sampled_from(["plain", "plain", "external", "hasrepr", "both", "unchanged"])),
+            "kind": draw(st.sampled_from(["plain", "plain", "external", "hasrepr", "both", "unchanged", "mixed"])),
             "v": draw(st.integers(0, 99)),
             "has_import": draw(st.sampled_from([False, False, True])),
             "nested_import": draw(st.sampled_from([False, False, True])),
@@ -257,7 +257,12 @@ def _multi_case(draw, tier):
             "imp": draw(st.sampled_from(["plain", "plain", "multiline", "semicolon", "comment", "backslash",
                                          "tight", "try_after"])),
         })
-    return {"files": files, "F": draw(st.sampled_from([["create"], ["create", "fix"], ["create", "fix", "trim", "update"]]))}
+    symlink = draw(st.sampled_from([False, False, True]))
+    if symlink and draw(st.booleans()):
+        files[0]["kind"] = "mixed"
+    return {"files": files, "F": draw(st.sampled_from([["create"], ["create", "fix"], ["create", "fix", "trim", "update"]])),
+            # the first file lives in a directory that pytest reaches through a symlink
+            "symlink": symlink}
 
 
 def render_multi(case):
@@ -293,6 +298,15 @@ def render_multi(case):
             lines.append(f"    assert {v} + 1 == snapshot()")
         elif k == "unchanged":
             lines.append(f"    assert {v} == snapshot({v})")
+        if k == "mixed":
+            # a created multi-line value (changes the line count) in front of a fixed == value
+            if "fix" in case["F"] and v % 2:
+                # a fixed value that becomes a multi-line literal in front of a created one
+                lines.append(f"    assert 'line {v}\\nsecond\\nthird\\n' == snapshot('')")
+                lines.append(f"    assert [{v}, 2] == snapshot()")
+            else:
+                lines.append(f"    assert 'line {v}\\nsecond\\nthird\\n' == snapshot()")
+                lines.append(f"    assert [{v}, 2] == snapshot([{v}, {3 if 'fix' in case['F'] else 2}])")
         if k in ("external", "both"):
             lines.append(f"    assert outsource('data {i} {v}') == snapshot()")
         if k in ("hasrepr", "both"):
@@ -307,12 +321,20 @@ def check_multi(case):
     files = render_multi(case)
     d = drivers.make_project(files)
     try:
-        r = drivers.run_pytest(d, ["--inline-snapshot=" + ",".join(case["F"])])
-        if "INTERNALERROR" in r.stdout or r.returncode not in (0, 1):
+        targets = []
+        if case.get("symlink"):
+            (d / "shared").mkdir()
+            (d / "test_m0.py").rename(d / "shared" / "test_m0.py")
+            (d / "link").symlink_to("shared", target_is_directory=True)
+            targets = ["link/test_m0.py"] + sorted(n for n in files if n != "test_m0.py")
+        r = drivers.run_pytest(d, ["--inline-snapshot=" + ",".join(case["F"])] + targets)
+        if "INTERNALERROR" in r.stdout or r.returncode not in (0, 1) or "Traceback (most recent call last)" in r.stderr:
             raise Violation("session-broken", f"rc={r.returncode}\n{r.stdout[-2000:]}\n{r.stderr[-1000:]}")
         after = {k: v.decode("utf-8") for k, v in r.files_after.items() if k in files}
+        if case.get("symlink"):
+            after["test_m0.py"] = (d / "shared" / "test_m0.py").read_text("utf-8")
         # read back: the rewritten project passes with inline-snapshot disabled
-        r2 = drivers.run_pytest(d, ["--inline-snapshot=disable"])
+        r2 = drivers.run_pytest(d, ["--inline-snapshot=disable"] + targets)
     finally:
         shutil.rmtree(d, ignore_errors=True)
     for name, before in files.items():
